@@ -13,8 +13,8 @@ def tlc_zoo(pid, tier, module="MC_Uper", extra_consts="", dev_props=("C01", "C02
     devs = sorted({x for p in dev_props for x in vlib.dev_set(p, all_devs or DEVS)})
     N = 3 if tier == "quick" else 4
     raw = os.path.join(d, module + ".raw")
-    cfg = ("SPECIFICATION Spec\nCONSTANTS\n  Dev = %s\n  W7 = 7\n  W14 = 14\n%s%sINVARIANTS RefOk Emit\nCHECK_DEADLOCK FALSE\n"
-           % (tla_set(devs), "" if no_n else "  N = %d\n" % N, extra_consts))
+    cfg = ("SPECIFICATION Spec\nCONSTANTS\n  Dev = %s\n  W7 = 7\n  W14 = 14\n%s%sINVARIANTS RefOk %sEmit\nCHECK_DEADLOCK FALSE\n"
+           % (tla_set(devs), "" if no_n else "  N = %d\n" % N, extra_consts, "Refines " if module == "MC_Uper" else ""))
     t = run_tlc(pid, module, cfg, replay_to=raw, coverage=False, heap="12g", timeout=2 * 3600, prefixes=PREFIXES)
     if t.violation:
         raise ToolError(module + " (reference level): " + t.violation)
@@ -87,7 +87,62 @@ def asn_names(tier, name=None):
     return res
 
 
-def uper_check(v, pid, classes, only_kind=None, with_stream=False, text=""):
+TRACE_CFG = "SPECIFICATION Spec\nCONSTANTS\n  W7 = 7\n  W14 = 14\nPOSTCONDITION Accepted\nCHECK_DEADLOCK FALSE\n"
+
+
+def uper_trace(v, pid, exe, vec, zoo, names, domain="uptrace", module="Trace_Uper", chunk=20000):
+    """T direction: per-call events of the real writer (tracing wrapper) validated as a behaviour of UperSM."""
+    d = outdir(pid)
+    tr = os.path.join(d, domain + ".ndjson")
+    rows = run_zoo(exe, domain, vec, tr)
+    summ = rows[-1]
+    if summ.get("ev") != "summary":
+        raise ToolError("trace recording incomplete")
+    for r in rows:
+        if r.get("ev") == "panic":
+            v.violation("%s: panic while recording T%d: %s" % (domain, r["ti"], r["why"][:200]), r, "%s_panic_%d.json" % (domain, r["line"]))
+    lines = [l for l in open(tr).read().splitlines() if '"ev":"panic"' not in l.replace(" ", "")]
+    # chunks end at message boundaries; every chunk starts with a reset event and ends with a summary event
+    starts = [i for i, l in enumerate(lines) if '"ev":"reset"' in l.replace(" ", "")]
+    chunks, cur = [], 0
+    for s0 in starts + [len(lines) - 1]:
+        if s0 - cur >= chunk:
+            chunks.append((cur, s0))
+            cur = s0
+    chunks.append((cur, len(lines) - 1))
+    accepted = events = 0
+    for ci, (a, b) in enumerate(chunks):
+        if b <= a:
+            continue
+        part = os.path.join(d, "%s_%d.ndjson" % (domain, ci))
+        open(part, "w").write("\n".join(lines[a:b] + [lines[-1]]) + "\n")
+        vlib.lint_trace(part)
+        tt = run_tlc(pid, module, TRACE_CFG, tag="%s_%d" % (domain, ci), workers=1, env={"TRACE": part}, deque=True, xss=True, coverage=False, heap="8g",
+                     timeout=3600)
+        if tt.violation or not tt.ok():
+            at = tt.depth                       # 1-based index of the first event that is not a step of the specification
+            part_lines = lines[a:b] + [lines[-1]]
+            start = max(i for i in range(min(at, len(part_lines))) if '"ev":"reset"' in part_lines[i].replace(" ", ""))
+            reset = json.loads(part_lines[start])
+            ti = reset.get("ti")
+            rej = [l for l in tt.out.splitlines() if l.startswith('<<"REJECTED"')]
+            v.violation("%s: event %d of the recorded calls for T%s ::= %s is not a step of UperSM (%s)"
+                        % (module, at - start, ti, names.get("T%s" % ti), (rej or [tt.violation or "no postcondition verdict"])[0][:200]),
+                        {"type": zoo.get(ti), "asn1": names.get("T%s" % ti), "vector_line": reset.get("line"), "rejected_event_index": at - start,
+                         "events": [json.loads(x) for x in part_lines[start:at]]}, "%s_%d.json" % (domain, ci))
+            break
+        accepted += sum(1 for l in lines[a:b] if '"ev":"reset"' in l.replace(" ", ""))
+        events += b - a
+        v.cov["states"] += tt.distinct
+        v.cov["transitions"] += tt.generated
+        os.remove(part)
+    v.cov["traces_validated_against_impl"] += accepted
+    v.cov["evaluations"] += events
+    v.cov[domain] = {"messages_traced": summ["traced"], "events": summ["events"], "messages_accepted": accepted, "module": module}
+    return summ
+
+
+def uper_check(v, pid, classes, only_kind=None, with_stream=False, text="", with_trace=False):
     """Common body of C01/C02/C03/C06: replay the zoo vectors, report the classes that concern this property."""
     t, zoo, vec = tlc_zoo(pid, v.tier)
     v.add_tlc("MC_Uper", t)
@@ -132,4 +187,6 @@ def uper_check(v, pid, classes, only_kind=None, with_stream=False, text=""):
     v.cov["zoo_types"] = len(zoo)
     if with_stream:
         v.cov["stream_histories"] = ssum["histories"]
+    if with_trace:
+        uper_trace(v, pid, exe, vec, zoo, names)
     return t, zoo, vec, summ, ssum
